@@ -10,7 +10,7 @@ import (
 )
 
 func init() {
-	register(&Rule{Name: "ERR-DROP", Floor: 40, Run: ruleErrDrop, Fixture: "fixture.dropError",
+	register(&Rule{Name: "ERR-DROP", Floor: 20, Run: ruleErrDrop, Fixture: "fixture.dropError",
 		Doc: "no error result of any call in module code is discarded (unused, or blank-assigned while the value is used) unless the callee is in the table of never-failing library calls or the site is a named exception with a reason"})
 }
 
